@@ -141,6 +141,15 @@ func cutsweepMain(args []string) int {
 			data = append(data, v)
 		}
 	}
+	// compound files re-labelled as version 4 (4096-byte sectors) and padded beyond 4736 bytes
+	for i := 0; i < base; i++ {
+		if len(data[i]) > 600 && bytes.HasPrefix(data[i], []byte{0xD0, 0xCF, 0x11, 0xE0, 0xA1, 0xB1, 0x1A, 0xE1}) {
+			v := append(append([]byte{}, data[i]...), make([]byte, 6000)...)
+			v[26], v[27] = 0x04, 0x00
+			names = append(names, names[i]+"~olev4")
+			data = append(data, v[:6000])
+		}
+	}
 	// hostile values in every 32-bit field position of the first 48 bytes (chunk / box / offset fields that a
 	// walker adds to a cursor): both byte orders, values around 2^32 and 2^31
 	for i := 0; i < base; i++ {
